@@ -110,6 +110,7 @@ def gen_synthetic(rng):
     ids = rng.sample(SYN_IDS, rng.randint(1, 3))
     defs = {}
     after = []
+    slow = []
     for tzid in ids:
         if rng.random() < 0.7:
             d, _ = zonegen.gen_definition(rng, tzid)
@@ -123,6 +124,11 @@ def gen_synthetic(rng):
                       for x in zl]
             elif r < 0.15:
                 zl = zl[:2] + zl[-1:]
+            elif r < 0.21 and any("FREQ=YEARLY" in x for x in zl):
+                # a rule that the zoneinfo path accepts lazily (it is expanded when an offset is first asked for)
+                # and the pytz path rejects - together with values that invite arithmetic in that zone
+                zl = [x.replace("FREQ=YEARLY", rng.choice(["FREQ=SECONDLY", "FREQ=MINUTELY", "FREQ=HOURLY"])) for x in zl]
+                slow.append(tzid)
             if rng.random() < 0.75:
                 lines += zl
             else:
@@ -194,6 +200,12 @@ def gen_synthetic(rng):
             for k in reversed(range(depth)):
                 lines.append(f"END:X-NEST{k % 3}")
         lines.append("END:" + kind)
+    for tzid in slow:
+        a, b = "19700310T100000", "19700310T120000"
+        lines += ["BEGIN:VFREEBUSY", "UID:slow-fb@example.com", "DTSTAMP:20200101T000000Z",
+                  f"FREEBUSY;TZID={tzid}:{a}Z/{b},{a}/{b}Z,{a}/{b}", "END:VFREEBUSY",
+                  "BEGIN:VEVENT", "UID:slow-ev@example.com", "DTSTAMP:20200101T000000Z", f"DTSTART;TZID={tzid}:{a}",
+                  f"RDATE;VALUE=PERIOD;TZID={tzid}:{a}/{b}Z,{a}Z/PT1H", f"EXDATE;TZID={tzid}:{a}Z,{b}", "END:VEVENT"]
     lines += after
     lines.append("END:VCALENDAR")
     return ("\r\n".join(lines) + "\r\n")
